@@ -391,6 +391,17 @@ class Function:
         r = self.reachable()
         return [(b.idx, b.term) for b in self.blocks if b.term.k == "call" and b.idx in r]
 
+    def promoted_fn(self, i):
+        """the i-th promoted constant body as a Function-like object"""
+        if not hasattr(self, "_promoted_fns"):
+            self._promoted_fns = {}
+        if i not in self._promoted_fns:
+            pj = self.promoted[i]
+            j = {"path": "%s::promoted[%d]" % (self.path, i), "def_kind": "Promoted", "sp": self.sp,
+                 "body": pj["body"], "blocks": pj["blocks"]}
+            self._promoted_fns[i] = Function(j, self.crate)
+        return self._promoted_fns[i]
+
     def local_name(self, l):
         return self.locals[l].get("name")
 
